@@ -40,12 +40,20 @@ static void describe (DBusMessage *m, char *out, size_t n)
   else snprintf (out, n, "?%d", dbus_message_get_type (m));
 }
 
+static int nested_block = -1;        /* the filter, handed its next message, waits for this call (a blocking wait inside a dispatch) */
+
 static DBusHandlerResult filter (DBusConnection *c, DBusMessage *m, void *d)
 {
   char buf[32]; (void) c; (void) d;
   describe (m, buf, sizeof buf);
   if (filters[0]) strcat (filters, ",");
   strcat (filters, buf);
+  if (nested_block >= 0)
+    {
+      int k = nested_block;
+      nested_block = -1;
+      if (pcs[k]) dbus_pending_call_block (pcs[k]);
+    }
   return DBUS_HANDLER_RESULT_NOT_YET_HANDLED;
 }
 
@@ -70,7 +78,7 @@ static void reset (void)
       if (srvmsg[i]) { dbus_message_unref (srvmsg[i]); srvmsg[i] = NULL; }
       notified[i] = 0; outcome[i][0] = 0;
     }
-  ncalls = 0; filters[0] = 0; n_timeouts = 0; refuse_next_timeout = 0;
+  ncalls = 0; filters[0] = 0; n_timeouts = 0; refuse_next_timeout = 0; nested_block = -1;
   if (retry_msg) { dbus_message_unref (retry_msg); retry_msg = NULL; }
   if (cli) { dbus_connection_close (cli); dbus_connection_unref (cli); cli = NULL; }
   if (srv) { if (dbus_connection_get_is_connected (srv)) dbus_connection_close (srv); dbus_connection_unref (srv); srv = NULL; pair_server_conn = NULL; }
@@ -196,6 +204,14 @@ main (void)
           printf ("ok\n");
         }
       else if (!strcmp (cmd, "dispatch")) { dbus_connection_dispatch (cli); printf ("ok\n"); }
+      else if (!strcmp (cmd, "dispatch-block") && n >= 2)
+        {
+          if (a < 0 || a >= ncalls) { printf ("bad-op\n"); fflush (stdout); continue; }
+          nested_block = (int) a;
+          dbus_connection_dispatch (cli);
+          if (nested_block >= 0) { nested_block = -1; printf ("ok-nofilter\n"); }
+          else printf ("ok\n");
+        }
       else if (!strcmp (cmd, "fire") && n >= 2)
         {
           int hit = 0;
